@@ -22,6 +22,7 @@ from py_gql.validation import validate_ast
 from . import oracles
 from .draws import Draws
 from .harness import (
+    BOOM_CLASSES,
     Boom,
     Bundle,
     CONFIGS,
@@ -203,7 +204,16 @@ def _finish_request(draws, spec, req, idx, profile, rs, tier):
     op = req.op
     # a root value handed to the entry point (root resolvers receive it)
     req.root = None
-    if rs.chance(1, 3, "root_value"):
+    if spec.root_default:
+        # an application object whose methods serve (some of) the root fields
+        from .harness import make_default_attr
+        from .world import Obj
+        oid = "ROOT%d" % rs.below(3, "root_id")
+        req.root = Obj(op.root_type, oid, {
+            f: make_default_attr(op.root_type, f, oid)
+            for f in spec.objects[op.root_type]["fields"]
+            if spec.behaviours.get((op.root_type, f)) == "default"})
+    elif rs.chance(1, 3, "root_value"):
         req.root = {"__id__": "ROOT%d" % rs.below(3, "root_id"),
                     "__typename__": op.root_type}
     if req.variant == "normal" and rs.chance(1, 4, "extra_variable"):
@@ -224,7 +234,7 @@ def _finish_request(draws, spec, req, idx, profile, rs, tier):
         if boom_on:
             # an unexpected exception, of one of the classes library code
             # tends to catch for its own control flow
-            kinds.append("boom%d" % fs.below(7, "boom_class"))
+            kinds.append("boom%d" % fs.below(len(BOOM_CLASSES), "boom_class"))
             nf = max(nf, 1)
         for _ in range(nf):
             if not base.positions:
@@ -396,7 +406,7 @@ def run_case(draws, prop, tier="quick"):
         from . import subsim
         return subsim.run_case(draws, prop, tier)
     want_mut = st.chance(*profile["mutation"], "mut")
-    spec = gen_schema(st, want_mutation=want_mut)
+    spec = gen_schema(st, want_mutation=want_mut, allow_root_default=True)
     try:
         bundle = Bundle(spec)
     except Exception as err:  # noqa: B902
@@ -546,6 +556,7 @@ def _overlap(res, prop, config, bundle, spec, pair, ost, digest, sample):
         requests.append({
             "text": r.text, "variables": r.variables,
             "operation_name": r.operation_name, "root": r.root,
+            "kind": r.op.kind,
         })
         worlds.append(World(spec, r.wseed, r.faults))
     kernel, outs = run_overlapped(config, bundle, requests, worlds, ost,
@@ -657,6 +668,7 @@ def _execute(config, bundle, spec, req, sched, policy):
         "variables": req.variables,
         "operation_name": req.operation_name,
         "root": req.root,
+        "kind": req.op.kind,
     }
     try:
         out = run_config(
